@@ -59,7 +59,7 @@ def gen_c01(rng, n_ops):
 
 def gen_c12(rng, n_ops):
     policy = rng.choice(["woi", "woe"])
-    admit = rng.choice(["all", "all", "all", "none", "0,1"])
+    admit = rng.choice(["all", "all", "all", "none", "0,1", "throttle"])
     cfg = H.cfg_line(policy=policy, algo=rng.choice(H.ALGOS), univ=4, foc=rng.choice([0, 1, 1]), admit=admit, blocks=16)
     locs = {0: "default", 1: rng.choice(["default", "ondisk"]), 2: "inmem", 3: "default"}
     ops, ver = [], 1
@@ -109,10 +109,24 @@ def gen_c15(rng):
     if rng.random() < 0.4:
         ops.append(f"ins k={rng.randrange(6)} ver={ver} size=64"); ver += 1    # ignored after close
     if rng.random() < 0.4:
+        ops.append(f"rm k={rng.randrange(6)}")                                   # ignored after close
+    if rng.random() < 0.4:
         ops.append("close")
     ops.append("reopen")
     for k in range(6):
         ops.append(f"get k={k}")
+    return cfg + "\n" + "\n".join(ops) + "\n"
+
+
+def gen_c15_burst(rng):
+    """close right after an insert burst whose evictions are still queued; the resident set alone fits the flush buffer"""
+    memcap = rng.choice([6, 10])
+    # the resident set alone (memcap entries of 8 KiB on disk) fits the flush buffer; resident + queued evictions do not
+    cfg = H.cfg_line(policy="woe", algo="fifo", mem=memcap, univ=memcap * 2, foc=1, tomb=0, blocks=16,
+                     buffer=(65536 if memcap == 6 else 131072))
+    n = memcap * 2
+    ops = [f"ins k={k} ver={k + 1} size=7000" for k in range(n)]
+    ops += ["close", "reopen"] + [f"get k={k}" for k in range(n)]
     return cfg + "\n" + "\n".join(ops) + "\n"
 
 
@@ -211,6 +225,16 @@ def gen_c03(rng, n_faults, exhaustive_pages=None):
                                f"flip:{(rng.randrange(3, 4096)) * 8 + rng.randrange(8)}",
                                f"swap:{rng.randrange(nparts)}:{rng.choice([0, 1, 2, 3])}"])
             ops.append(f"fault part={part} page={page} kind={kind}")
+        if rng.random() < 0.35:
+            # targeted: the first entry of the first block (data starts behind the 4 KiB blob index) - its last value
+            # byte, a byte of its length / checksum fields, or the entry count of the blob index page
+            first = next((o for o in ops if o.startswith("ins ")), None)
+            if first:
+                size = max(16, int(first.split("size=")[1].split()[0]))
+                blk = tomb      # partition of block 0
+                last_val = 4096 + 36 + 8 + size - 1
+                tgt = rng.choice([last_val, last_val - 1, 4096 + rng.randrange(0, 36), 8 + rng.randrange(0, 4), rng.randrange(0, 8)])
+                ops.append(f"fault part={blk} page={tgt // 4096} kind=flip:{(tgt % 4096) * 8 + rng.randrange(8)}")
         ops += ["reopen", "probe"]
         for k in range(5):
             ops.append(f"get k={k}")
@@ -231,7 +255,7 @@ def gen_scripts(pid, tier, seed):
             "quiescent histories (wait after every step) over 4 keys with fixed placement advice (default / on-disk / in-memory), " \
             "insert, get, get_or_fetch, evict-all, close, reopen; both policies, flush_on_close on/off, admission all/none/some"
     if pid == "C15":
-        return [gen_c15(rng) for _ in range(1500 if th else 160)], \
+        return [gen_c15(rng) for _ in range(1500 if th else 160)] + [gen_c15_burst(rng) for _ in range(100 if th else 12)], \
             "histories ending in close [+ late insert] [+ second close] + reopen + read of every key; both policies, flush_on_close " \
             "on/off, in-memory-only entries, entries updated after their first disk write, reinsertion filter with a small device"
     if pid == "C09":
@@ -257,9 +281,19 @@ def corpus(pid):
 
 def shrink(pid, script, budget=60):
     lines = script.strip().split("\n")
-    cfg, ops = lines[0], lines[1:]
+    cfg, raw = lines[0], lines[1:]
+    # units that must stay together: a graceful restart (close + reopen), hold ... unhold brackets stay balanced
+    ops, i = [], 0
+    while i < len(raw):
+        if raw[i] == "close" and i + 1 < len(raw) and raw[i + 1] == "reopen":
+            ops.append("close\nreopen"); i += 2
+        else:
+            ops.append(raw[i]); i += 1
 
     def fails(ops_):
+        flat = "\n".join(ops_).split("\n")
+        if flat.count("hold") != flat.count("unhold") or "reopen" in [x for x in flat if x == "reopen" and flat[flat.index(x) - 1] != "close"]:
+            return False
         r = H.run_batch([cfg + "\n" + "\n".join(ops_) + "\n"])[0]
         return H.ORACLES[pid](r[0], r[1]) is not None
 
